@@ -474,6 +474,42 @@ theorem backtracking_witnesses :
     getMatchScore Variant.backtracking chainDoc pat_zab 5 = .other := by
   decide
 
+/-! ## number-valued predicates -/
+
+/-- **A predicate whose value is a number is positional, whatever its syntactic form** (XPath 1.0 §2.4): `[2]`,
+`[1+1]`, `[count(../x)]`, `[number(@n)]`, `[ceiling(3 div 2)]`, `[last()-1]` …  In `doStepPredicate` the model takes the
+type from the *evaluated* predicate (`Spec.predVal … = .num k`), not from the op codes: such a predicate never
+decides by its boolean value, it hands over to `handleFoundIndex` (the re-evaluation of the step from the parent,
+exact by `handleFoundIndex_spec`), so the node matches iff `k` is its position among the nodes the step selects.
+The facts regenerated from `XPath::doStepPredicate` say that the code does the same: the plain-predicate branch
+evaluates the predicate, tests `XObject::eTypeNumber == pred->getType()` at run time, treats everything else as a
+boolean, and the only op-code look-ahead for a number literal is the one inside the with-position branch. -/
+theorem number_valued_predicate_is_positional (d : Doc) (s : MStep) (p : Pred) (ps : List Pred) (ctx k : Nat)
+    (sc : Score) (hnum : Spec.predVal d p ctx 0 0 = .num k) :
+    doStepPredicate v d s (p :: ps) ctx sc = doStepPredicate v d s ps ctx (handleFoundIndex v d s ctx) ∧
+    (Generated.C09_StepPredicate.evaluatesPlainPredicate = true ∧
+      Generated.C09_StepPredicate.valueTypeTestedAtRunTime = true ∧
+      Generated.C09_StepPredicate.booleanOtherwise = true ∧
+      Generated.C09_StepPredicate.numberLitLookAheads = 1 ∧
+      Generated.C09_StepPredicate.positionBranchUsesFoundIndex = true) := by
+  refine ⟨?_, by decide⟩
+  by_cases hu : p.usesPos = true
+  · simp [doStepPredicate, hu]
+  · simp [doStepPredicate, hu, hnum]
+
+/-- non-vacuity: `b[1+1]`, `b[count(../b)]`, `b[ceiling(3 div 2)]` match exactly the second `b` of `<a><b/><b/></a>`,
+`b[3 div 2]` and `b[-1]` nothing (all computed numbers; none of them a literal, none calls position()/last()) -/
+example :
+    let d : Doc := { nodes := [⟨.root, "", 0⟩, ⟨.elem, "a", 0⟩, ⟨.elem, "b", 1⟩, ⟨.elem, "b", 1⟩] }
+    let pat (q : Pred) : Pattern := [⟨false, [(.child, { attrAxis := false, test := .name "b", preds := [q] })]⟩]
+    (List.range 4).map (fun n => (getMatchScore Variant.backtracking d (pat (.sumLit 1 1)) n).toNat) = [0, 0, 0, 4] ∧
+    (List.range 4).map (fun n => (getMatchScore Variant.backtracking d (pat (.countSib "b")) n).toNat) = [0, 0, 0, 4] ∧
+    (List.range 4).map (fun n => (getMatchScore Variant.backtracking d (pat (.ceilDiv 3 2)) n).toNat) = [0, 0, 0, 4] ∧
+    (List.range 4).map (fun n => (getMatchScore Variant.backtracking d (pat (.divLit 3 2)) n).toNat) = [0, 0, 0, 0] ∧
+    (List.range 4).map (fun n => (getMatchScore Variant.backtracking d (pat (.negLit 1)) n).toNat) = [0, 0, 0, 0] ∧
+    (List.range 4).map (fun n => Spec.matchesPattern d (pat (.sumLit 1 1)) n) = [false, false, false, true] := by
+  decide
+
 /-! ## consumers that pre-filter candidate nodes by target data -/
 
 /-- **`getTargetData` is complete for template lookup.**  For every shape of last step (id()/key() call, `/`, any
